@@ -1000,7 +1000,10 @@ class LangServer:
         def_fqsn: str = def_obj.FQSN
         # Whole-word occurrences; look-arounds so that neighbouring occurrences
         # separated by a single character (i=i+1) are all found
-        NAME_REGEX = re.compile(rf"(?<![\w$])({re.escape(def_name)})(?![\w$])", re.I)
+        # (the exponent of a real literal written 1.d0 is not a word)
+        NAME_REGEX = re.compile(
+            rf"(?<![\w$])(?<!\d\.)({re.escape(def_name)})(?![\w$])", re.I
+        )
         if file_obj is None:
             file_set = self.workspace.items()
         else:
